@@ -22,6 +22,10 @@ RULE = (
     "whose dumps() are the k inputs. Refusals (unimplemented opcode) are counted, not failures. "
     "Non-trivial = non-empty trailing bytes, k >= 2, or an argument at a boundary length; "
     "distinct = distinct (bytes, delivery)."
+    ' Also: stack members without a payload (lone STOP, header + STOP); after every parse a copy'
+    ' of it is edited (injection, newer opcode) and the original must still re-serialise'
+    ' byte-exactly; for plain data the checked loader (fickling.load) is run on the same stream'
+    ' and must leave it where the stock load does.'
 )
 ASSUMPTIONS = [
     "for a non-seekable stream only byte-exactness and the stacked partition are asserted; the "
